@@ -21,7 +21,10 @@ Nested == {<<o, i, Ln("line", "r1", "", <<>>, 0), Ln("blank", "", "", <<>>, 0)>>
               o \in {m \in Menu : m.k = "open" /\ m.ind = 1}, i \in {m \in Menu : m.k = "inl"}}
      \cup {<<o, Ln("line", "r2", "", <<>>, 0), i, Ln("line", "r1", "", <<>>, 0), Ln("blank", "", "", <<>>, 0)>> :
               o \in {m \in Menu : m.k = "open" /\ m.ind = 1}, i \in {m \in Menu : m.k = "inl"}}
-Files == UNION {[1..n -> Menu] : n \in 1..MaxLen} \cup Nested
+\* guarded paragraphs that hold a compact nested block (sub-profile written without blank lines)
+Blocks == {<<o, Ln("bopen", "sub", "", <<>>, 0), Ln("line", "r1", "", <<>>, 0), Ln("close", "}", "", <<>>, 0), Ln("line", "r2", "", <<>>, 0), Ln("blank", "", "", <<>>, 0)>> :
+              o \in {m \in Menu : m.k = "open" /\ m.ind = 1}}
+Files == UNION {[1..n -> Menu] : n \in 1..MaxLen} \cup Nested \cup Blocks
 MCCfgs == [dist : {"arch", "debian", "opensuse"}, abi : {3, 4}, ver : {"3.0", "4.0", "4.1"}, mode : {"none"}, full : {FALSE}]
 
 Init == src \in Files /\ cfg \in MCCfgs /\ text = src /\ k = 1
@@ -36,6 +39,6 @@ Lead(name, ok) == ok \/ PrintT("LEAD " \o name \o " " \o ToJson([cfg |-> cfg, sr
 Leads == Done /\ FileInContract(src) => Lead("C03", FileOK(src, text, cfg))
 \* every file is printed once (under the first configuration) for replay
 EmitLen == IF "VERIF_FILTER_EMITLEN" \in DOMAIN IOEnv THEN atoi(IOEnv.VERIF_FILTER_EMITLEN) ELSE 3
-Emit == (k = 1 /\ (Len(src) <= EmitLen \/ src \in Nested) /\ cfg = [dist |-> "arch", abi |-> 3, ver |-> "3.0", mode |-> "none", full |-> FALSE] /\ Dirs(src) # <<>>)
+Emit == (k = 1 /\ (Len(src) <= EmitLen \/ src \in Nested \/ src \in Blocks) /\ cfg = [dist |-> "arch", abi |-> 3, ver |-> "3.0", mode |-> "none", full |-> FALSE] /\ Dirs(src) # <<>>)
            => PrintT("BEH " \o ToJson([src |-> src, contract |-> FileInContract(src)]))
 ==============================================================================
